@@ -40,6 +40,15 @@ def registered():
 
 
 def _one(item):
+    try:
+        return _one_inner(item)
+    except Exception as e:  # noqa: BLE001 - unexpected behaviour of the code under test
+        tag, data, idx = item
+        return {"viol": [(PROP, f"C05|plain|unexpected-exception|{type(e).__name__}", f"{tag}: {type(e).__name__}: {e}",
+                          {"engine": "plain", "tag": tag, "bytes": data}, len(data))], "unsupported": 0, "ok": 0}
+
+
+def _one_inner(item):
     import fickling.fickle as fk
 
     tag, data, idx = item
